@@ -5,7 +5,7 @@ from .. import reqsuite as S
 from .. import reqgen as Q
 from .. import ubxgen as G
 
-CHECKER = 'coqc props/C06.v (proofs/RequestGood.v) + correspondence (returned frame, number of sends) + expected-answer oracle on the implementation'
+CHECKER = 'coqc props/C06.v props/C06b.v (proofs/RequestGood.v, proofs/C06bP.v) + correspondence (returned frame, number of sends) + expected-answer oracle on the implementation'
 
 
 # known finding F11: the gpsd backend has no _flush_input(); see known_findings.json and DESIGN.md 12
@@ -70,6 +70,9 @@ def check(tier, seed):
     with C.WorkDir('C06') as wd:
         C.audit_sources()
         C.props_obligations(res, 'C06', wd)
+        a0_ = list(res.assumption_lines)
+        C.props_obligations(res, 'C06b', wd)
+        res.assumption_lines = a0_ + res.assumption_lines
         cases = RC.run_suite(res, 'C06', tier, seed, 400, 15000, n_req=[1, 1, 1, 2, 3], force='good', oracle=oracle, late_every=10, history_every=6)
         gpsd_leftover_case(res)
         res.compare(cases)
